@@ -7,6 +7,7 @@ import (
 	"fmt"
 	"hash/fnv"
 	"net/url"
+	"runtime"
 	"sort"
 	"strings"
 	"sync"
@@ -134,6 +135,12 @@ func zktap(c *harness.Ctx) {
 
 func tapBubble(c *harness.Ctx) {
 	pinRandomness(c)
+	pre0 := runtime.VerifPreemptions
+	defer func() {
+		if runtime.VerifPreemptions > pre0 {
+			c.Probe("waker-preempted-after-wake-up")
+		}
+	}()
 	epoch := time.Now()
 	z := fakezk.New()
 	var lat []time.Duration
@@ -317,10 +324,13 @@ func tapBubble(c *harness.Ctx) {
 		now = append(now, tapEvent{path: zkPath + "/" + n, data: data})
 	}
 	sort.Slice(now, func(i, j int) bool { return now[i].path < now[j].path })
-	faultFree := true
+	faultFree, validOnly := true, true
 	for _, d := range desc {
 		if strings.HasPrefix(d, "drop") || strings.HasPrefix(d, "expire") || strings.HasPrefix(d, "fail") {
 			faultFree = false
+		}
+		if strings.Contains(d, "kind=2") || strings.Contains(d, "kind=3") || strings.Contains(d, "/2") || strings.Contains(d, "/3") {
+			validOnly = false
 		}
 		// watches are one-shot: a client may legitimately never see a value that was overwritten before
 		// it looked. With only valid announcements and deletions the fold of the history is the current
@@ -332,13 +342,23 @@ func tapBubble(c *harness.Ctx) {
 	}
 	if view := snaps[len(snaps)-1].render; foldEvents(now, zkPath) == view {
 		c.Probe("view-converged-to-zookeeper")
-	} else if faultFree {
-		// no connection fault, every notification delivered, 45 virtual seconds of quiet: the history
-		// of tree changes has been observed completely, so its fold is the tree as it stands
-		c.Fail("C19", "fold-zookeeper", "fold-zookeeper", "fault-free run, all notifications delivered: the tracked announcements are %q but the fold of ZooKeeper's change history (= its current tree) is %q; TreeCache emitted %d events; stimuli=%v", view, foldEvents(now, zkPath), len(history), desc)
+		if !faultFree {
+			c.Probe("view-converged-after-connection-faults")
+		}
+	} else if validOnly {
+		// Bounded liveness: every stimulus is over, every held notification delivered, 45 virtual seconds of
+		// quiet have passed (TreeCache retries a failed read after 10 s, the ZooKeeper client reconnects within
+		// about a second and re-registers its watches, which fire at once for whatever changed meanwhile). With
+		// only valid announcements and deletions in the history its fold is the tree as it stands, whatever was
+		// coalesced or lost on the way.
+		kind := "fault-free run"
+		if !faultFree {
+			kind = "connection faults stopped 45 virtual seconds ago"
+		}
+		c.Fail("C19", "fold-zookeeper", "fold-zookeeper", "%s, all notifications delivered: the tracked announcements are %q but the fold of ZooKeeper's change history (= its current tree) is %q; TreeCache emitted %d events; stimuli=%v", kind, view, foldEvents(now, zkPath), len(history), desc)
 		return
 	} else {
-		c.Probe("view-not-converged-after-faults")
+		c.Probe("view-not-converged-history-with-ignored-updates")
 	}
 	h := fnv.New64a()
 	for _, l := range z.Trace() {
